@@ -112,6 +112,9 @@ def r5_helpers(model, rep) -> None:
         ("R5.3", f"{T}.trso_line10", "line_10", {"query": Q, "district": VS, "new_surrogate_interventions": ("dict", POP, VS)}, H, "line10-factors",
          "on a deep copy: X ∩ S', Π_{v∈S'} P(v | predecessors) in the active domain, G[S'], the updated experiment table"),
         ("R5.3", f"{T}.trso_line3", "line_3", {"query": Q, "additional_interventions": VS}, H, "line3-update", "a deep copy with the extra interventions added, nothing else"),
+        ("R5.3", f"{T}.trso_line2", "line_2", {"query": Q, "outcomes_ancestors": VS}, H, "line2-restriction",
+         "on a deep copy: X ∩ An(Y); every domain's diagram restricted to its own An(Y); the distribution in hand summed over the regular nodes of the "
+         "CURRENT domain's diagram that are not in An(Y)"),
         ("R5.3", f"{T}.trso_line4", "line_4", {"query": Q, "components": ("iter", ("frozenset", V))}, H, "line4-subproblems",
          "one deep copy per district: outcomes = the district, interventions = every other regular node"),
     ]
